@@ -1,7 +1,7 @@
 """C03 — content stays on its page and every page makes progress."""
 from fractions import Fraction
 
-from harness import pm, pm_corr
+from harness import docs, pm, pm_corr, wide_trace
 from vlib import sx
 from vlib.framework import PropCheck
 
@@ -44,7 +44,7 @@ def geometry_violation(doc, impl_out):
 class C03(PropCheck):
     id = 'C03'
     extractors = ()
-    modules = ('WpModel.Props.C03',)
+    modules = ('WpModel.Props.C03', 'WpModel.Props.C03Trace')
     trusted_base = (
         'modelled, not verified: the block/line pagination functions of block.py and page.py as '
         'lean/WpModel/Model/Paginate.lean (see C01)',
@@ -58,8 +58,23 @@ class C03(PropCheck):
             'random block/paragraph documents, whole pagination compared exactly including position_y/height of '
             'every line and box; non-trivial = at least 2 pages')
         pm_corr.add_cases(run, sec, run.n(250, 6000))
+        sec2 = run.section(
+            'wide-geometry',
+            'documents of the wide grammar: per page, the bottom edges of in-flow line boxes and table rows with a '
+            'first-on-page/column flag are checked by the verified Lean checker against the page content box; '
+            'the implementation side is the constant claim "ok"; non-trivial = a page with at least 2 items')
+        docs.quiet()
+        for _ in range(run.n(80, 2500)):
+            for line, meta, tags in wide_trace.fits_cases(run.rng):
+                if line is None:
+                    sec2.tags['render-error (C02)'] += 1
+                    continue
+                sec2.add(line, 'ok', meta=meta, nontrivial=len(meta['items']) >= 2, tags=tags)
 
     def judge(self, d):
+        if d['section'] == 'wide-geometry':
+            return (f'page {d["meta"]["page_index"]}: in-flow items {d["model"]} end below the content box bottom '
+                    f'{d["meta"]["bottom"]} without being first on their page')
         doc = pm_corr.doc_from_json(d['meta']['doc'])
         return geometry_violation(doc, d['impl']) or pm_corr.progress_violation(doc, d['impl'])
 
